@@ -24,6 +24,10 @@ def ts(k):
         return None
     if k == "tz":      # an aware timestamp that is not in UTC
         return datetime.datetime(2000, 1, 1, 12, 0, 7, tzinfo=OTHER_TZ)
+    if k == "usec":    # microseconds matter
+        return datetime.datetime(2000, 1, 1, 0, 0, 1, 250001, tzinfo=UTC)
+    if k == "naive":   # a naive datetime is the caller's business: it is forwarded as it is
+        return datetime.datetime(2000, 1, 1, 0, 0, 4)
     if k == "future":  # a supplied timestamp far ahead of the real clock
         return datetime.datetime(2100, 1, 1, 0, 0, 0, tzinfo=UTC)
     return datetime.datetime(2000, 1, 1, 0, 0, k, tzinfo=UTC)
